@@ -8,6 +8,7 @@ import (
 	"flag"
 	"fmt"
 	"os"
+	"os/exec"
 	"path/filepath"
 	"sort"
 	"strconv"
@@ -55,18 +56,19 @@ type Violation struct {
 }
 
 type Run struct {
-	Prop     string
-	Tier     string
-	Seed     int
-	Level    string
-	start    time.Time
-	mu       sync.Mutex
-	known    map[string]string // key -> what
-	viol     map[string]*Violation
-	knownHit map[string]bool
-	Unrepro  []string
-	Budget   time.Duration
-	Capped   bool
+	Prop      string
+	Tier      string
+	Seed      int
+	Level     string
+	start     time.Time
+	mu        sync.Mutex
+	known     map[string]string // key -> what
+	viol      map[string]*Violation
+	knownHit  map[string]bool
+	Unrepro   []string
+	Budget    time.Duration
+	Capped    bool
+	SubFailed bool // a sub-check run by this check reported a violation
 }
 
 // Start parses --tier (or VERIF_TIER) and VERIF_SEED, loads the known findings.
@@ -195,7 +197,11 @@ func (r *Run) Finish(coverage map[string]interface{}, assumptions []string) {
 	}
 	b, _ := json.MarshalIndent(evd, "", " ")
 	os.MkdirAll(filepath.Join(OutDir(), "evidence"), 0o755)
-	if err := os.WriteFile(filepath.Join(OutDir(), "evidence", r.Prop+".json"), append(b, '\n'), 0o644); err != nil {
+	evName := r.Prop
+	if n := os.Getenv("VERIF_EVIDENCE_NAME"); n != "" {
+		evName = n // a sub-check whose evidence is merged into the property's file by its parent
+	}
+	if err := os.WriteFile(filepath.Join(OutDir(), "evidence", evName+".json"), append(b, '\n'), 0o644); err != nil {
 		HarnessError("writing evidence: %v", err)
 	}
 	for _, k := range kh {
@@ -207,7 +213,7 @@ func (r *Run) Finish(coverage map[string]interface{}, assumptions []string) {
 		fmt.Fprintf(Out, "  key=%s\n  what=%s\n", v.Key, strings.ReplaceAll(v.What, "\n", " | "))
 	}
 	fmt.Fprintf(Out, "%s %s: done in %.1fs, violations=%d known=%d exhaustive=%v\n", r.Prop, r.Tier, time.Since(r.start).Seconds(), len(vk), len(kh), coverage["exhaustive"])
-	if len(vk) > 0 {
+	if len(vk) > 0 || r.SubFailed {
 		os.Exit(1)
 	}
 	os.Exit(0)
@@ -265,4 +271,43 @@ func CopyDir(src, dst string) {
 	if err != nil {
 		HarnessError("copydir: %v", err)
 	}
+}
+
+// RunSub runs another check directory as a part of this one: `run.sh <dir> --tier
+// <tier>` with its evidence written to evidence/<Prop>.<part>.json. Its verdict lines
+// are relayed; its evidence coverage is returned for embedding. Exit 2 of the sub-check
+// is a harness error of this check.
+func (r *Run) RunSub(dir, part string) map[string]interface{} {
+	name := r.Prop + "." + part
+	cmd := exec.Command(filepath.Join(Root, "run.sh"), dir, "--tier", r.Tier)
+	cmd.Env = append(os.Environ(), "VERIF_EVIDENCE_NAME="+name)
+	out, err := cmd.Output()
+	fmt.Fprint(Out, string(out))
+	code := 0
+	if err != nil {
+		if ee, ok := err.(*exec.ExitError); ok {
+			code = ee.ExitCode()
+		} else {
+			HarnessError("sub-check %s: %v", dir, err)
+		}
+	}
+	if code != 0 && code != 1 {
+		HarnessError("sub-check %s exited with %d", dir, code)
+	}
+	if code == 1 {
+		r.SubFailed = true
+	}
+	b, err := os.ReadFile(filepath.Join(OutDir(), "evidence", name+".json"))
+	if err != nil {
+		HarnessError("sub-check %s wrote no evidence: %v", dir, err)
+	}
+	var e struct {
+		Coverage   map[string]interface{} `json:"coverage"`
+		Violations int                    `json:"violations"`
+	}
+	if json.Unmarshal(b, &e) != nil {
+		HarnessError("sub-check %s: bad evidence", dir)
+	}
+	e.Coverage["violations"] = e.Violations
+	return e.Coverage
 }
